@@ -55,3 +55,11 @@ VARIANTS += [
 VARIANTS += [
     M('C02', 'revert-fix-iteritems', E(PC, "        return all(type(v) is bool for i, v in nn.items())", "        return all(type(v) is bool for i, v in nn.iteritems())"), rule='C02-IEF', key='DENYAPI:iteritems'),
 ]
+
+VARIANTS += [
+    M('C02', 'date-flag-set-when-type-key-is-met', [E(BS, "            is_date = 'type' in c and c['type'] == 'date'\n", "            is_date = False\n"),
+                                                    E(BS, "                    if (is_date and kind in DATE_VALUED_CONSTRAINTS\n                            and constraint.value is not None):",
+                                                      "                    if kind == 'type':\n                        is_date = constraint.value == 'date'\n                    elif (is_date and kind in DATE_VALUED_CONSTRAINTS\n                            and constraint.value is not None):")],
+      rule='C02-KEYORDER', key='initialize_from_dict'),
+    M('C02', 'refactor-date-flag-from-get', E(BS, "            is_date = 'type' in c and c['type'] == 'date'\n", "            is_date = c.get('type') == 'date'\n"), kind='refactor'),
+]
